@@ -148,11 +148,11 @@ ColdU == ColdOrder(CU_)
 ---------------------------------------------------------------------------
 (* the machine *)
 Init ==
-  /\ \E n \in 1..MaxStreams : \E f \in IdxSeqs(n) : \E ho \in HotOpts : \E co \in ColdOpts :
-        /\ (ho = 5 => \A j \in 1..n : USeq[f[j]].k = "H")      \* no cold stream: Qh = 0
-        /\ (co = 5 => \A j \in 1..n : USeq[f[j]].k = "C")      \* no hot stream:  Qc = 0
-        /\ inp = [S |-> [j \in 1..n |-> USeq[f[j]]], HU |-> HotLadder(ho), CU |-> ColdLadder(co), ho |-> ho, co |-> co,
-               D |-> <<>>]
+  /\ ForEachMultiset(MaxStreams, LAMBDA f : \E ho \in HotOpts : \E co \in ColdOpts :
+        /\ (ho = 5 => \A j \in 1..Len(f) : USeq[f[j]].k = "H")      \* no cold stream: Qh = 0
+        /\ (co = 5 => \A j \in 1..Len(f) : USeq[f[j]].k = "C")      \* no hot stream:  Qc = 0
+        /\ inp = [S |-> [j \in 1..Len(f) |-> USeq[f[j]]], HU |-> HotLadder(ho), CU |-> ColdLadder(co), ho |-> ho, co |-> co,
+               D |-> <<>>])
   /\ phase = "init" /\ k = 0 /\ assigned = RZero
   /\ hotQ = <<>> /\ coldQ = <<>>
 
